@@ -6,7 +6,7 @@ import ast
 from ..astx import calls_in, dotted, src
 from ..core import AnalysisError, Ctx, PropSpec, borrow
 from ..rules_blocks import check_block_nest
-from ..rules_coord import check_coord_discipline, check_position_parity, has_coord_source, parity_self_example
+from ..rules_coord import check_coord_discipline, check_global_exits, check_position_parity, global_exit_self_example, has_coord_source, parity_self_example
 from ..rules_strided import check_as_strided
 
 MC = "pandora/matching_cost/matching_cost.py"
@@ -53,6 +53,17 @@ def run(ctx: Ctx) -> None:
         for q in sorted(tree.funcs(rel)):
             np_ += check_position_parity(ctx, "C13.PARITY", rel, q)
     ctx.floor("C13.PARITY(modulo sites)", np_, 6)
+
+    # ---- GLOBAL-EXIT: no early exit of a local step decided by a whole-image aggregate
+    if not global_exit_self_example():
+        raise AnalysisError("C13.GLOBAL-EXIT: the positive example is no longer recognised")
+    ng = 0
+    for rel in (CRIT, MC, SAD, CEN, ZN, MED, BIL, VAL):
+        for q in sorted(tree.funcs(rel)):
+            ng += 1
+            check_global_exits(ctx, "C13.GLOBAL-EXIT", rel, q)
+    ctx.ob("C13.GLOBAL-EXIT", CRIT, tree.module(CRIT), f"{ng} functions of the local steps scanned for aggregate-guarded early exits", True)
+    ctx.floor("C13.GLOBAL-EXIT(functions)", ng, 40)
 
     # ---- ACCUMULATE: prefix sums (integral images) are exact for integer-valued inputs only in float64
     from ..defuse import Defs
@@ -134,6 +145,7 @@ SPEC = PropSpec(
 )
 
 MUTANTS = [
+    {"id": "right-mask-early-return-on-global-aggregate", "file": CRIT, "old": "    r_mask = xr.where(\n        (r_mask != img_right.attrs[\"no_data_mask\"]) & (r_mask != img_right.attrs[\"valid_pixels\"]),", "new": "    if not dil.any():\n        return\n    r_mask = xr.where(\n        (r_mask != img_right.attrs[\"no_data_mask\"]) & (r_mask != img_right.attrs[\"valid_pixels\"]),"},
     {"id": "window-sum-in-float32", "file": SAD, "old": "np.sum(aggregation_window, (0, 1), dtype=np.float64).astype(np.float32)", "new": "np.sum(aggregation_window, (0, 1))"},
     {"id": "mean-raster-accumulates-in-image-dtype", "file": IMG, "old": '        r_mean = np.r_[np.zeros((1, nx_)), img["im"].data]\n', "new": '        r_mean = np.r_[np.zeros((1, nx_), dtype=img["im"].dtype), img["im"].data]\n'},
     {"id": "eq-mean-raster-explicit-float64", "kind": "equiv", "file": IMG, "old": '        r_mean = np.r_[np.zeros((1, nx_)), img["im"].data]\n', "new": '        r_mean = np.r_[np.zeros((1, nx_), dtype=np.float64), img["im"].data]\n'},
